@@ -9,7 +9,12 @@ use crate::git_config;
 use crate::options::get::get_themes;
 use crate::utils::bat::output::{OutputType, PagingMode};
 
-pub fn show_themes(dark: bool, light: bool, color_mode: ColorMode) -> std::io::Result<()> {
+pub fn show_themes(
+    dark: bool,
+    light: bool,
+    color_mode: ColorMode,
+    no_gitconfig: bool,
+) -> std::io::Result<()> {
     use std::io::BufReader;
 
     use bytelines::ByteLines;
@@ -17,7 +22,15 @@ pub fn show_themes(dark: bool, light: bool, color_mode: ColorMode) -> std::io::R
     use super::sample_diff::DIFF;
 
     let env = DeltaEnv::default();
-    let themes = get_themes(git_config::GitConfig::try_create(&env));
+    // Themes are sections of the git config files: there is none under --no-gitconfig.
+    let try_create_git_config = |env: &DeltaEnv| {
+        if no_gitconfig {
+            None
+        } else {
+            git_config::GitConfig::try_create(env)
+        }
+    };
+    let themes = get_themes(try_create_git_config(&env));
     if themes.is_empty() {
         return Err(std::io::Error::new(
             ErrorKind::NotFound,
@@ -35,7 +48,7 @@ pub fn show_themes(dark: bool, light: bool, color_mode: ColorMode) -> std::io::R
         }
     };
 
-    let git_config = git_config::GitConfig::try_create(&env);
+    let git_config = try_create_git_config(&env);
     let opt = cli::Opt::from_iter_and_git_config(
         &env,
         &["delta", "--navigate", "--show-themes"],
@@ -52,7 +65,7 @@ pub fn show_themes(dark: bool, light: bool, color_mode: ColorMode) -> std::io::R
     let writer = output_type.handle().unwrap();
 
     for theme in &themes {
-        let git_config = git_config::GitConfig::try_create(&env);
+        let git_config = try_create_git_config(&env);
         let opt =
             cli::Opt::from_iter_and_git_config(&env, &["delta", "--features", theme], git_config);
         let is_dark_theme = opt.dark;
